@@ -233,6 +233,8 @@ class Model:
         self.raises = 0
         self.stats = {}
         self.in_clear = {}      # thread idx -> clock name
+        self.cleared = {}       # clock name -> tasks taken out of the queue
+        #                         for a wake-up that a clear() then cancelled
         self.neg_tempo = set()
 
     def bump(self, k):
@@ -411,6 +413,20 @@ class Model:
                 'C08-5', f'{exp["clock"][0]}-resched-missing',
                 f'task returned {exp["r"]} but was not re-scheduled')
 
+    def after_clear(self, cname):
+        """clear() returned: wake-ups already taken out of the queue but not
+        yet delivered (AppClock collects the due ones first) are pending
+        things of that clock too, hence cancelled"""
+        for lst in self.fifo.values():
+            keep = []
+            for e in lst:
+                if e[2] == cname and e[0] in self.taskid:
+                    self.cleared.setdefault(cname, []).append(e[0])
+                    self.bump('clear-cancels-collected-wakeup')
+                else:
+                    keep.append(e)
+            lst[:] = keep
+
     # -- task body records
     def body_enter(self, tid, task, cname):
         k = self.k
@@ -428,6 +444,12 @@ class Model:
                     f'task {self.taskid[e[0]]} was popped but its body did '
                     f'not run before task {tid}')
         if found is None:
+            if any(task is x for x in self.cleared.get(cname, [])):
+                self.viol.add('C08-6', f'{cname[0]}-awakened-after-clear',
+                              f'task {tid} was pending (taken out of the '
+                              f'queue, not yet awakened) when its clock was '
+                              f'cleared, and was awakened afterwards')
+                return None
             self.viol.add('C08-1', f'{cname[0]}-woken-unscheduled',
                           f'task {tid} ran without a matching pop')
             return None
@@ -642,6 +664,7 @@ def run_case(case, tape, ctx):
                              f'task(s), queue empty={q._orig_empty()}')
                     m.cancelled.setdefault(cname, set()).update(p.keys())
                     p.clear()
+                m.after_clear(cname)
             return
         if kind == 'cmdperiod':
             # clears every clock's queue and stops the (non permanent)
@@ -664,6 +687,7 @@ def run_case(case, tape, ctx):
                                  f'empty={q._orig_empty()}')
                         m.cancelled.setdefault(cn, set()).update(p.keys())
                         p.clear()
+                    m.after_clear(cn)
                     if cn.startswith('t'):
                         m.stopping.add(cn)
             m.bump('cmdperiod')
